@@ -133,12 +133,13 @@ inductive Out where
 deriving Repr, DecidableEq
 
 /-- `ANIreadann` / `DFANIgetann` on a text of `len` bytes with a caller buffer of `maxlen` bytes:
-    (number of text bytes returned, number of buffer bytes WRITTEN).  The clipped length is handed to `Hread`,
-    for which a length of 0 means "to the end of the element"; labels then get a NUL at `ann[ann_len]`. -/
+    (number of text bytes returned, number of buffer bytes WRITTEN).  The length is clipped to `maxlen` (labels:
+    `maxlen - 1`), `Hread` is called only for a positive length (/repo d625c61; before that a clipped length of 0 was
+    handed to `Hread`, for which 0 means "to the end of the element", and the whole text overran a 1-byte label
+    buffer — finding `an-read-overrun`), labels then get a NUL at `ann[ann_len]`. -/
 def readSpan (t len maxlen : Nat) : Nat × Nat :=
   let n := if isLabelType t then min len (maxlen - 1) else min len maxlen
-  let copied := if n = 0 then len else n
-  (n, if isLabelType t then max copied (n + 1) else copied)
+  (n, if isLabelType t then n + 1 else n)
 
 def indexed (t : Nat) (s : AnState) (index : Int) : Option Entry :=
   if index < 0 then none else ((ofType t s.tree)[index.toNat]?).map (·.2)
@@ -160,8 +161,10 @@ def step (s : AnState) : Op → AnState × Out
       let target := if isDataType t then (etag % 65536, eref % 65536) else (tag, annref)
       if target.1 = 0 ∨ target.2 = 0 then (s, .fail)
       else
-        -- `ANIaddentry`: an unloaded tree is created EMPTY (the file is not scanned) and counts as loaded
-        let s1 := if s.loaded.contains t then s else { s with loaded := t :: s.loaded }
+        -- `ANIaddentry`: an unloaded tree is first built from the annotations already in the file
+        -- (`ANIcreate_ann_tree`, /repo d4a30b4; before that it was created EMPTY and marked loaded, which hid every
+        -- existing annotation of the type for the rest of the session — finding `an-create-hides`)
+        let s1 := loadType s t
         match treeIns (AN_CREATE_KEY t annref) ⟨annref, target.1, target.2⟩ s1.tree with
         | none => (s1, .fail)
         | some tr => ({ s1 with tree := tr }, .ok)
